@@ -1,4 +1,5 @@
 ENGINES = {
+    'C01': 'sim.engines.c01',
     'C02': 'sim.engines.c02',
     'C03': 'sim.engines.c03',
     'C04': 'sim.engines.c04',
@@ -18,11 +19,17 @@ ENGINE_TABLE = [
      'kind_free_text': 'proof modules composed with the real toolkit (seeded forward composition of primitive rules and every public library lemma over an import graph), serialised by the real ProofExp.serialize through an in-memory file system (SimFS) installed at the module-global open seam, then handed to the real Rust checker, the reference machine R1, the journal model R6 and the real deserialiser; stream faults injected into the live byte stream'},
     {'name': 'E-history', 'path': 'sim/engines/history.py', 'serves_properties': ['C04', 'C07'],
      'kind_free_text': 'seeded histories of proof-DSL calls (incl. adversarial, inapplicable calls) issued to a real SerializingInterpreter (bare or under MemoizingInterpreter / InstantiationOptimizer) writing to in-memory sinks; lock-step refinement of the emitted bytes against the reference machine R1 and the real Rust checker'},
-    {'name': 'E-machine', 'path': 'sim/engines/machine.py', 'serves_properties': ['C05'],
+    {'name': 'E-machine', 'path': 'sim/engines/machine.py', 'serves_properties': ['C01', 'C05'],
      'kind_free_text': 'seeded instruction streams and stream faults (truncate/overwrite/flip/drop/dup/swap/misroute) driven through the real Rust checker (lib.rs by textual inclusion) stepped per instruction, against the reference machine R1'},
 ]
 
 META = {
+    'C01': {
+        'engine': 'E-machine', 'level': 'exploration', 'design_ref': 'DESIGN.md section 4 (C01)',
+        'technique': 'deterministic simulation of the checker as a stepped machine over seeded instruction streams and stream faults, with a semantic soundness invariant (finite-model evaluation) checked after every instruction',
+        'text': 'The real checker is stepped instruction by instruction over seeded streams from an empty or valid theory (all orders of axiom schemas, Instantiate, ModusPonens, Generalization, Substitution with capturing plugs over-represented, Save/Load/Pop, Publish) and over faulted variants of them; every new term it tags as proved is evaluated on admissible concrete instances in canonical and seeded finite models (carriers 1-3) under all (or sampled) valuations and must be the whole carrier. Streams, instances and models are sampled: a clean batch is evidence, not proof.',
+        'note': 'Trusted: R2 (semantics.py: textbook free variables, polarity, application contexts, capture-avoiding substitution with renaming, least fixpoints by iteration) and the catalogue of valid schemas, which R2 re-checks at start-up. Carriers are limited to 3 as the property states.',
+    },
     'C15': {
         'engine': 'E-process', 'level': 'exploration', 'design_ref': 'DESIGN.md section 4 (C15)',
         'technique': 'deterministic simulation of the converter as fresh processes under seeded hash seeds (the uncontrolled ordering the property names), decoded proofs compared with an independent Appendix-B codec',
